@@ -113,6 +113,31 @@ def gen_cases(ctx):
         n = rng.randrange(1, 4)
         mk("sum", list=[sv(rng, n, "generic") for _ in range(k)])
     mk("add", a=sv(rng, 2), b=sv(rng, 3)); mk("sub", a=sv(rng, 1), b=sv(rng, 2)); mk("sum", list=[]); mk("sum", list=[sv(rng, 1), sv(rng, 2)])
+    # scalars on an axis (purely imaginary, purely real, zero, -0 real part) on either side of the state; and inner products whose first
+    # or second argument is a basis state carrying a sign, a phase or a scale (Z|1>, Y|0>, -|k>, 0.5|k>)
+    for n in (1, 2, 3, 5):
+        a = sv(rng, n, "generic")
+        for z in ((0.0, 1.0), (0.0, -0.7), (-0.0, 2.5), (1.5, 0.0), (-1.0, 0.0), (0.0, 0.0), (0.0, 1e-9)):
+            zz = [float2bits(z[0]), float2bits(z[1])]
+            mk("mul_c", a=a, z=zz); mk("c_mul", a=a, z=zz)
+        for f in (0.0, -1.0, -0.0, 1.0):
+            mk("mul_f", a=a, f=float2bits(f)); mk("f_mul", a=a, f=float2bits(f))
+        dim = 1 << n
+        for c in ((-1.0, 0.0), (0.0, 1.0), (0.0, -1.0), (0.5, 0.0), (0.6, -0.8), (2.0, 1.0)):
+            k = rng.randrange(dim)
+            v = [float2bits(0.0)] * (2 * dim); v[2 * k], v[2 * k + 1] = float2bits(c[0]), float2bits(c[1])
+            e = {"n": n, "v": v}
+            b = sv(rng, n, rng.choice(["generic", "normalised"]))
+            mk("inner", a=e, b=b); mk("inner", a=b, b=e); mk("inner", a=e, b=e); mk("inner_self", a=e)
+    # the same operations inside pools of 3 / 5 / 6 workers (counts that do not divide the vector length), on 16 .. 256 amplitudes
+    for k in (3, 5, 6):
+        for n in (4, 5, 7, 8):
+            a, b = sv(rng, n, "generic"), sv(rng, n, "generic")
+            z = [ctx.randf(-2, 2), ctx.randf(-2, 2)]
+            for kw in (dict(mode="add", a=a, b=b), dict(mode="sub", a=a, b=b), dict(mode="mul_c", a=a, z=z), dict(mode="c_mul", a=a, z=z), dict(mode="inner", a=a, b=b),
+                       dict(mode="normalise", a=a), dict(mode="sum", list=[sv(rng, n, "generic") for _ in range(3)])):
+                mk(**kw); cases[-1]["in_pool"] = k
+        mk("tensor", a=sv(rng, 3), b=sv(rng, 4)); cases[-1]["in_pool"] = k
     return cases
 
 def cst(s): return "(mkState %s %s)" % (cqN(s["n"]), cqvec(s["v"]))
